@@ -48,20 +48,20 @@ CHECKS = {
    note="Deterministic single execution per configuration (the property quantifies over run lengths and re-bootstrap counts). Completions are bounded by attempts seen on the wire.",
    technique="exhaustive sweep of run lengths/configurations of the real node under virtual time with probe oracles"),
  "C06": dict(engine="E2-space", category="model_checking", design="§3 C06",
-   text="Explicit-state BFS to closure over the real TokenStore (Copy) under a virtual clock: all reachable abstract states (time since rotation x tracked-token age x which secret the token belongs to) for issue/touch/check-in/advance alphabets around the 10/20/30-minute boundaries, v4, v6 and mixed; in every state a copy of the store is probed: a token <= 10 min old must be accepted from its IP, >= 30 min never, other IP never, never-issued never.",
-   note="Dedup key is the hook snapshot of the implementation (secrets compared by recomputing SHA-1(ip||secret)); ages saturate at the largest constant the code compares with. Secret collisions (2^-32) ignored. The handler integration (which IP is passed, storing gated on the check) is covered by the SimWorld binding once built.",
+   text="Explicit-state BFS to closure over the real TokenStore (Copy) under a virtual clock: all reachable abstract states (time since rotation x tracked-token age x which secret the token belongs to) for issue/touch/check-in/advance alphabets around the 10/20/30-minute boundaries, v4, v6 and mixed; in every state a copy of the store is probed: a token <= 10 min old must be accepted from its IP, >= 30 min never, other IP never, never-issued never. E1 binding: every sequence of length <= 3 (thorough 4) over 11 client actions / time jumps (get_peers from A/B, announce from A, A' (same IP other port), B with A's token, previous-instance token, 19-byte token, issued token + 1 byte, 9m59s / 10m01s / 30m) against a real serving node: ack vs 203 per the same rules and a refused announce stores nothing.",
+   note="Dedup key is the hook snapshot of the implementation (secrets compared by recomputing SHA-1(ip||secret)); ages saturate at the largest constant the code compares with. Secret collisions (2^-32) ignored. ",
    technique="explicit-state model checking of the real object to closure (BFS, hook-snapshot dedup)"),
  "C07": dict(engine="E2-space", category="model_checking", design="§3 C07",
-   text="Bounded DFS over the real AnnounceStorage from 7 seeded states (empty, 498/499/500 pairs on one hash, spread, two batches 12 h apart) with all event sequences up to depth 6/5 (quick) 8/7 (thorough) over add/renew/fresh-pair/find/advance{1 s,12 h,24 h-1 s,24 h}; after every transition add()'s return value and find() for all tracked hashes are compared with a reference map (pair -> last successful announce).",
-   note="Depth-bounded, not closed. Dedup on the hook snapshot of the queue and lists (ages saturated at 24 h) plus the reference state. Handler-level port derivation / family filter is covered by the SimWorld binding once built.",
+   text="Bounded DFS over the real AnnounceStorage from 7 seeded states (empty, 498/499/500 pairs on one hash, spread, two batches 12 h apart) with all event sequences up to depth 6/5 (quick) 8/7 (thorough) over add/renew/fresh-pair/find/advance{1 s,12 h,24 h-1 s,24 h}; after every transition add()'s return value and find() for all tracked hashes are compared with a reference map (pair -> last successful announce). E1 binding: every sequence of length <= 3 (4) over announces (explicit/implied port, two v4 sources with the same port number, a v6 source, second info-hash), get_peers from v4/v6 and 12 h / 24 h-1 s / 24 h jumps against a real node: reply values must equal the live pairs of the requester's family; plus 498/499/500 pre-stored pairs through the handler (202 beyond capacity, renewal accepted, room again a day later).",
+   note="Depth-bounded, not closed. Dedup on the hook snapshot of the queue and lists (ages saturated at 24 h) plus the reference state. Exactness is demanded whenever all live peers of the family fit a 1500-byte reply (C17), subset otherwise.",
    technique="bounded explicit-state exploration of the real object against a reference model"),
  "C08": dict(engine="E2-space", category="model_checking", design="§3 C08",
    text="Bucket level: all 9841 slot-status patterns (every prefix length x {purged, questionable, good}) x every offer (new good/questionable/bad, every slot re-offered good/questionable), complete. Table level: all event sequences to depth 3 (quick) / 4 (thorough) from 17 seeded tables (1..160 buckets, stale, purged, mixed orders) x 2 local ids over offers for 10 members of each prefix class, requests sent/received, own-id and router offers, time steps; shape invariants in every state and the trade oracle (at most one victim, strictly lower standing, never while the bucket has room, rejected only by a full non-splittable bucket of equal-or-better nodes) on every offer.",
    note="Routers are fixed at table creation (as with IP-literal routers). Pre/post predicate oracle: the victim choice is left open. Depth-bounded from seeds.",
    technique="exhaustive pattern enumeration + bounded explicit-state exploration of the real RoutingTable with a pre/post oracle"),
  "C09": dict(engine="E2-space", category="model_checking", design="§3 C09",
-   text="For every table state reached by the C08-style exploration (17 seeds x 2 local ids, depth 2/3, plus 160-bucket tables) closest_nodes is enumerated for the local id, single-bit flips, every member id, pseudo-random ids and all-ones: every live node exactly once, no bad node, and every node sharing a longer prefix with the target than the local id within the first 8.",
-   note="Reply assembly in the handler (family filter, take 8) is covered by the SimWorld binding once built. Quick tier uses a subset of single-bit flips (all up to bucket count + 1).",
+   text="For every table state reached by the C08-style exploration (17 seeds x 2 local ids, depth 2/3, plus 160-bucket tables) closest_nodes is enumerated for the local id, single-bit flips, every member id, pseudo-random ids and all-ones: every live node exactly once, no bad node, and every node sharing a longer prefix with the target than the local id within the first 8. E1 binding: real nodes whose tables were filled by traffic (3/9/17 contacts, some going silent), at three instants 161 probes dump the table and 40 targets x 4 want values x {find_node, get_peers} are checked for distinctness, liveness, family, count = min(8, N) and closer-node inclusion.",
+   note="Quick tier uses a subset of single-bit flips (all up to bucket count + 1).",
    technique="bounded explicit-state exploration of the real RoutingTable with a complete per-state oracle"),
  "C10": dict(engine="E2-space", category="model_checking", design="§3 C10",
    text="BFS over a real RoutingTable holding one contact (thorough: to closure, 26 M states; quick: depth 16 plus closure on a 450 s grid) and two contacts (bounded depth) under answer / hearsay / query received / query sent / advance{1,29,30,31,899,900,901 s}; in every state load_contacts and closest_nodes are compared with a history specification of BEP5 classification (good only with an answer or a query from a known contact in the last 15 min; answer => good; hearsay-only never good; two unanswered queries while not good => not reported until it answers or is re-admitted).",
@@ -72,12 +72,12 @@ CHECKS = {
    note="Trusts harness/src/benc.rs (reference encoder written from BEP3/5/32). Queries carrying a superset of the named method's arguments are not asserted either way (the statement is silent).",
    technique="bounded-exhaustive input enumeration against an independent reference encoder"),
  "C14": dict(engine="E3-enum", category="fault_enumeration", design="§3 C14",
-   text="Decoder sweep in supervised worker processes (1 GiB address space, 2 MiB decoding stack, counting allocator) in the release and the dev build: every token sequence of <= 5 tokens (dev: 4) over a 27-token bencode alphabet incl. length prefixes up to 2^64, every single structure-aware mutation of every valid message shape, nesting of every depth that fits 1500 bytes in 7 framings; oracle: no death, no panic, single allocation <= 1 MiB, total <= 4 MiB.",
-   note="Inputs are structure-aware families, not all 256^1500 strings. The node-level sweep (sequences of datagrams into a running node) is added with the SimWorld engine.",
+   text="Decoder sweep in supervised worker processes (1 GiB address space, 2 MiB decoding stack, counting allocator) in the release and the dev build: every token sequence of <= 5 tokens (dev: 4) over a 27-token bencode alphabet incl. length prefixes up to 2^64, every single structure-aware mutation of every valid message shape, nesting of every depth that fits 1500 bytes in 7 framings; oracle: no death, no panic, single allocation <= 1 MiB, total <= 4 MiB. Node sweep inside the workers: every sequence of <= 2 (thorough 3) of 24 representative datagrams from two addresses into a running serving node (contacts duplicating every reply in half of them); afterwards a ping is answered and get_state / load_contacts / local_addr / search complete.",
+   note="Inputs are structure-aware families, not all 256^1500 strings. ",
    technique="bounded-exhaustive fault/input enumeration of the real decoder under a process supervisor"),
  "C19": dict(engine="E2-space", category="model_checking", design="§3 C19",
-   text="Exhausts the reachable positions of the real id generators: 3x2048+1 activities from a fresh AIDGenerator and from the last two blocks before the 2^40 wrap have pairwise distinct 5-byte prefixes; full 2^24+4096 cycles of MIDGenerators (2 quick, 8 thorough): 8 bytes, constant prefix, first 2^24 ids pairwise distinct; all block-boundary windows.",
-   note="Wire-level rules (no prefix shared between live activities, shared first-round bootstrap id never twice to one address) are checked by the SimWorld monitor once built.",
+   text="Exhausts the reachable positions of the real id generators: 3x2048+1 activities from a fresh AIDGenerator and from the last two blocks before the 2^40 wrap have pairwise distinct 5-byte prefixes; full 2^24+4096 cycles of MIDGenerators (2 quick, 8 thorough): 8 bytes, constant prefix, first 2^24 ids pairwise distinct; all block-boundary windows. Wire monitor over the scenario sets of C01, C05, C18: every query has an 8-byte id, no id twice to one address, no reuse within an activity except the shared first bootstrap round, searches and table maintenance never share a prefix.",
+   note="The statement is read as: the first 2^24 ids of an activity are pairwise distinct (windows across the wrap re-shuffle block 0).",
    technique="exhaustive enumeration of generator positions on the real code"),
  "C20": dict(engine="E3-enum", category="exploration", design="§3 C20",
    text="Bounded-exhaustive enumeration of the real InfoHash::from_ip: the complete IPv4 relevant-bit space (2^21 addresses quick, all 2^32 thorough) x all 8 values of the internal 3 random bits, and structured IPv6 families, each draw validated by an independent bitwise CRC32-C BEP42 validator. Exhaustive over IPv4, bounded over IPv6.",
